@@ -84,7 +84,11 @@ func (c *vpConn) Read(b []byte) (int, error) {
 		return 0, vpErrEOF
 	}
 	n := copy(b, c.reads[c.rpos])
-	c.rpos++
+	if n < len(c.reads[c.rpos]) {
+		c.reads[c.rpos] = c.reads[c.rpos][n:] // stream semantics: the rest arrives with the next Read
+	} else {
+		c.rpos++
+	}
 	return n, nil
 }
 
